@@ -36,7 +36,7 @@ impl Regime {
     }
 }
 
-fn config(init: u16, regime: Regime) -> StrategyConfig {
+pub fn config(init: u16, regime: Regime) -> StrategyConfig {
     let (protocol, strategy, target, ports) = match regime {
         Regime::General254 => (Protocol::Icmp, MultipathStrategy::Classic, IpAddr::V4(Ipv4Addr::new(10, 200, 0, 9)), PortDirection::None),
         Regime::Tcp512 => (Protocol::Tcp, MultipathStrategy::Classic, IpAddr::V4(Ipv4Addr::new(10, 200, 0, 9)), PortDirection::new_fixed_dest(80)),
@@ -70,7 +70,7 @@ fn config(init: u16, regime: Regime) -> StrategyConfig {
     }
 }
 
-fn t0() -> SystemTime {
+pub fn t0() -> SystemTime {
     UNIX_EPOCH + Duration::from_secs(1_600_000_000)
 }
 
